@@ -900,14 +900,15 @@ Section Walk7.
   (* C15: a file whose name matches an exclude pattern (user pattern or the two implicit ones) is neither
      created nor modified by the file walk of a real run — provided copytree honours the patterns
      (fix_excl); in /repo it does not, see C15_exclude_never_touched_refuted *)
-  Theorem ws_exclude_never_touched : fix_excl cf = true ->
+  Theorem ws_exclude_never_touched :
     forall p fuel o deep sdir ddir subdir,
+    fix_excl cf = true \/ o_recursive o = false ->
     wf_node (Dir sdir) = true -> o_dry_run o = false ->
     p <> [] -> excluded o (last p []) = true ->
     (forall es, lookup_path p (Dir ddir) <> Some (Dir es)) ->
     lookup_path p (Dir (fst (sync_ws fuel o deep sdir ddir subdir))) = lookup_path p (Dir ddir).
   Proof.
-    intros Hfx. induction p as [|n p IH]; intros fuel o deep sdir ddir subdir Hwf Hdry Hne Hex Hd; [congruence|].
+    induction p as [|n p IH]; intros fuel o deep sdir ddir subdir Hfx Hwf Hdry Hne Hex Hd; [congruence|].
     destruct (wf_dir_inv _ Hwf) as [Hnd Hsub].
     destruct fuel as [|fuel]; [reflexivity|].
     destruct p as [|k p].
@@ -924,6 +925,7 @@ Section Walk7.
         destruct (alookup n sdir) as [[c m|es]|]; try (simpl; rewrite Ec; reflexivity).
         * unfold copy_file. rewrite Hdry. simpl. rewrite alookup_aset_same. reflexivity.
         * destruct (o_recursive o); [|simpl; rewrite Ec; reflexivity].
+          destruct Hfx as [Hfx|Hfx]; [|discriminate].
           unfold copy_tree. rewrite Hdry, Hfx. cbn [fst].
           rewrite alookup_app, Ec. cbn [alookup]. rewrite str_eqb_refl.
           rewrite lookup_path_touch, lookup_path_prune_excl; [reflexivity|discriminate|exact Hex].
@@ -940,7 +942,8 @@ Section Walk7.
       + (* SubDir *)
         apply classify_SubDir in Ec. destruct Ec as (ses & des & E1 & E2).
         rewrite (step3_SubDir _ _ _ _ _ _ ses des E1 E2). rewrite E2 in *.
-        destruct (o_recursive o); simpl; [|rewrite E2; reflexivity].
+        destruct (o_recursive o) eqn:Er; simpl; [|rewrite E2; reflexivity].
+        assert (Hfx' : fix_excl cf = true \/ o_recursive o = false) by (destruct Hfx; [left; assumption|discriminate]).
         rewrite alookup_aset_same. apply IH; auto; [eapply Hsub; eauto|discriminate].
   Qed.
 
